@@ -20,6 +20,7 @@ import (
 	"errors"
 	"fmt"
 	"io"
+	"math"
 	"net/http"
 	"net/url"
 	"strconv"
@@ -1563,7 +1564,7 @@ func (w *envelopingWriter) handleTrailer() error {
 	if w.trailerIsCompressed && data.Len() > 0 {
 		uncompressed := w.rw.op.bufferPool.Get()
 		defer w.rw.op.bufferPool.Put(uncompressed)
-		if err := w.rw.op.server.respCompression.decompress(uncompressed, data); err != nil {
+		if err := w.rw.op.server.respCompression.decompressLimit(uncompressed, data, int64(w.rw.op.methodConf.maxMsgBufferBytes)); err != nil {
 			return err
 		}
 		data = uncompressed
@@ -1699,7 +1700,7 @@ func (w *transformingWriter) flushMessage() error {
 		if w.latestEnvelope.compressed && w.buffer.Len() > 0 {
 			data = w.rw.op.bufferPool.Get()
 			defer w.rw.op.bufferPool.Put(data)
-			if err := w.rw.op.server.respCompression.decompress(data, w.buffer); err != nil {
+			if err := w.rw.op.server.respCompression.decompressLimit(data, w.buffer, int64(w.rw.op.methodConf.maxMsgBufferBytes)); err != nil {
 				return err
 			}
 		}
@@ -1787,7 +1788,7 @@ func (e *errorWriter) Close() error {
 	if compressPool := e.rw.op.server.respCompression; compressPool != nil && body.Len() > 0 {
 		uncompressed := bufferPool.Get()
 		defer bufferPool.Put(uncompressed)
-		if err := compressPool.decompress(uncompressed, body); err != nil {
+		if err := compressPool.decompressLimit(uncompressed, body, int64(e.rw.op.methodConf.maxMsgBufferBytes)); err != nil {
 			// can't really just return an error; we have to encode the
 			// error into the RPC response, so we populate respMeta.end
 			if e.respMeta.end.httpCode == 0 || e.respMeta.end.httpCode == http.StatusOK {
@@ -2052,8 +2053,12 @@ func (m *message) decompress(op *operation) error {
 	if pool == nil || m.buf.Len() == 0 {
 		return nil
 	}
+	limit := int64(math.MaxInt64 - 1)
+	if op.methodConf != nil {
+		limit = int64(op.methodConf.maxMsgBufferBytes)
+	}
 	tmp := op.bufferPool.Get()
-	if err := pool.decompress(tmp, m.buf); err != nil {
+	if err := pool.decompressLimit(tmp, m.buf, limit); err != nil {
 		op.bufferPool.Put(tmp)
 		return err
 	}
